@@ -180,10 +180,25 @@ class Engine(Interp):
         p = ProcV(g, z3.Bool(fresh_name('triggered')))
         self.st.assume(z3.Not(p.triggered))     # S4: a process that has not run yet has not returned
         self.st.spawns.append((g, p, node))
-        hook = getattr(self, 'on_spawn', None)
-        if hook:
-            hook(g, p, node)
+        for qual, pred, gname, elem in self.spec.spawn_ghosts:
+            if g.qual == qual:
+                cnt, n = self.pending_ghost(gname)
+                d = z3.If(pred(self, g.args), 1, 0)
+                e = elem(self, g.args)
+                self.st.ghost[gname + '.cnt'] = z3.Store(cnt, e, z3.Select(cnt, e) + d)
+                self.st.ghost[gname + '.n'] = n + d
         return p
+
+    def pending_ghost(self, gname, st=None):
+        """ghost multiset of spawned-but-not-yet-started processes (by the element they concern)"""
+        st = st or self.st
+        if gname + '.cnt' not in st.ghost:
+            st.ghost[gname + '.cnt'] = z3.Const('ghost0_' + gname + '.cnt', IntArr)
+            st.ghost[gname + '.n'] = z3.Int('ghost0_' + gname + '.n')
+            l = ListObj(st.ghost[gname + '.cnt'], st.ghost[gname + '.n'])
+            self.bag_facts(l, st)
+            st.assume(z3.Implies(l.cnt == EMPTY_CNT, l.n == 0))
+        return st.ghost[gname + '.cnt'], st.ghost[gname + '.n']
 
     # ---------------------------------------------------------------- builtin methods
     def list_method(self, l, name, args, node):
